@@ -311,6 +311,8 @@ impl Kademlia {
                 for action in actions {
                     match self.service.open_substream(peer) {
                         Ok(substream_id) => {
+                            // Track the substream so that an open failure finds its peer.
+                            self.pending_substreams.insert(substream_id, peer);
                             context.add_pending_action(substream_id, action);
                         }
                         Err(error) => {
@@ -322,10 +324,9 @@ impl Kademlia {
                                 "connection established to peer but failed to open substream",
                             );
 
-                            if let PeerAction::SendFindNode(query_id) = action {
-                                self.engine.register_send_failure(query_id, peer);
-                                self.engine.register_response_failure(query_id, peer);
-                            }
+                            let query_id = action.query_id();
+                            self.engine.register_send_failure(query_id, peer);
+                            self.engine.register_response_failure(query_id, peer);
                         }
                     }
                 }
